@@ -7,12 +7,12 @@ PROP = 'C02'
 def prof(seed):
     k = seed % 4
     if k == 0:
-        return gen.profile(p_dyn=0.6, ops=dict(m_dropdep=5, repeat=4, sel=3))
+        return gen.profile(p_dyn=0.6, ops=dict(m_dropdep=4, m_dropforgot=3, repeat=4, sel=3))
     if k == 1:
         return gen.profile(p_default=0.7, p_twodot=0.5, p_subdir=0.4, ops=dict(m_doswap=5, doadd=2, dorm=2, doedit=2, repeat=3))
     if k == 2:
         return gen.profile(p_watch=0.5, p_always=0.25, ops=dict(watch=5, repeat=4, rm=3, m_failfix=2))
-    return gen.profile(ntgt=(5, 12), steps=(10, 24), ops=dict(repeat=4, m_dropdep=1, m_doswap=1, m_failfix=1, m_stamp=1, m_stampflip=2, edit_back=1), p_stamp=0.35)
+    return gen.profile(ntgt=(5, 12), steps=(10, 24), ops=dict(repeat=4, m_dropdep=1, m_dropforgot=1, m_doswap=1, m_failfix=1, m_stamp=1, m_stampflip=2, edit_back=1), p_stamp=0.35)
 
 
 def nontrivial(r):
@@ -25,7 +25,7 @@ def nontrivial(r):
 CASE = histcheck.HistCase(PROP, prof, {'overbuild', 'underbuild', 'multi'}, nontrivial)
 
 RULE = ('same program generator as C01; histories biased towards immediate repetition of a command (must run nothing unless '
-        'redo-always), narrowing a dependency selector and then editing exactly the dropped dependency, creating/removing '
+        'redo-always), narrowing a dependency selector and then editing exactly the dropped dependency (also when the narrowed target is rebuilt from a record that redo had turned into "not a target": file removed, failed without output, deleted override), creating/removing '
         'higher-priority .do candidates, ifcreate paths appearing/disappearing, remove-and-rebuild, failure then retry. '
         'Oracle: per command, multiset of script executions (S records of the unified trace) == set predicted by the '
         'reference model (property\'s iff-list; in failing/parallel commands the choice of already-started siblings is '
